@@ -83,7 +83,24 @@ func c09World(t *testing.T, p c09Params) rt.Result {
 		typ := uint8(0)
 		switch p.Stim {
 		case "OPEN":
-			stim, typ = wire.Msg(wire.TypeOpen, rc.StdOpen(ps.RemoteAS, 90, remoteIDu).Body()), 1
+			o := rc.StdOpen(ps.RemoteAS, 90, remoteIDu)
+			if p.State != stOpenSent {
+				// outside OpenSent an OPEN is unexpected whatever it proposes: also one that
+				// would be refused in OpenSent is answered with the FSM error, not judged
+				switch r.IntN(8) {
+				case 0:
+					o.Hold = uint16(1 + r.IntN(2))
+				case 1:
+					o.Version = 3
+				case 2:
+					o.ID = 0
+				case 3:
+					o.AS = 64999
+				case 4:
+					o.Hold = 0
+				}
+			}
+			stim, typ = wire.Msg(wire.TypeOpen, o.Body()), 1
 		case "UPDATE":
 			stim, typ = wire.Update([]byte{0, 0, 0, 0}), 2
 		case "KEEPALIVE":
